@@ -325,6 +325,41 @@ func runC05(c *core.Ctx) {
 			}
 		}
 	}
+	// a book with several independent faults (two recipes that use themselves, a cycle next to an over-long chain):
+	// which fault is reported, and in which words, is the same on every run
+	{
+		srv := pool.Servers[0]
+		books := []string{
+			"bread:\n  bread: 1\n  x: 1\nsoup:\n  soup: 2\n  y: 1\nok:\n  x: 1\n",
+			"a:\n  a: 1\nc1:\n  c2: 1\nc2:\n  c3: 1\nc3:\n  c4: 1\nc4:\n  x: 1\nb:\n  b: 1\n",
+			"p:\n  q: 1\nq:\n  p: 1\nr:\n  r: 1\ns:\n  t: 1\nt:\n  s: 1\n",
+		}
+		for bi, book := range books {
+			files := map[string]string{"food.yaml": book, "log.yaml": "2021/01/01:\n  ok: 1\n  a: 1\n  p: 1\n"}
+			srv.Write(files)
+			for _, cmd := range [][]string{{"reg"}, {"bal", "-s", "x"}, {"csv", "database-resolved"}, {"report", "totals"}, {"--maxdepth", "3", "reg"}, {"--maxdepth", "1", "summary", "2021/01/01"}} {
+				args := append([]string{"--no-color", "-d", "food.yaml", "-l", "log.yaml"}, cmd...)
+				outcomes := map[string]int{}
+				for _, v := range srv.App(args, nil, 60) {
+					outcomes[fmt.Sprintf("exit=%d\nerr=%s\n%s", btoi(v.Exit != 0), strings.TrimSpace(v.ErrText()), v.Out)] += v.Count
+				}
+				for k := 0; k < 6; k++ {
+					v := run.Exec(c.HR, args, run.ExecOpts{Dir: srv.Dir})
+					outcomes[fmt.Sprintf("exit=%d\nerr=%s\n%s", btoi(v.Exit != 0), strings.TrimSpace(v.ErrText()), v.Out)]++
+				}
+				c.Eval(66)
+				c.Count("cases_with_several_independent_faults", 1)
+				if len(outcomes) > 1 {
+					var ks []string
+					for k, cnt := range outcomes {
+						ks = append(ks, fmt.Sprintf("[%d runs] %s", cnt, clip(k, 500)))
+					}
+					sort.Strings(ks)
+					c.Violation(strings.Join(cmd[len(cmd)-min(2, len(cmd)):], " ")+"|output-varies", fmt.Sprintf("%d different outcomes for identical inputs (book %d with several faulty recipes): %s", len(outcomes), bi, joinArgs(cmd)), caseDoc{Files: files, Args: args, Observed: ks})
+				}
+			}
+		}
+	}
 	// the current date is an input like any other when it is given: the first instant of the calendar (the zero value
 	// of the time type) under a layout that shows fractions of a second - whatever replaced it would show
 	{
